@@ -878,7 +878,7 @@ func (c *Ctx) CYC(rule string) []report.Obligation {
 			var mark ssa.Instruction
 			for _, b := range f.Blocks {
 				for _, in := range b.Instrs {
-					if mu, ok := in.(*ssa.MapUpdate); ok && mu.Map == ssa.Value(f.Params[3]) {
+					if mu, ok := in.(*ssa.MapUpdate); ok && sameParam(mu.Map, paramByType(f, "map[string]bool", "map[string]struct{}")) {
 						if bv, isC := constBool(mu.Value); isC && bv {
 							mark = in
 						}
@@ -887,9 +887,17 @@ func (c *Ctx) CYC(rule string) []report.Obligation {
 			}
 			notSeen := factHolds(rec[0].Block(), func(cond ssa.Value, val bool) bool {
 				lk, ok := cond.(*ssa.Lookup)
-				return ok && lk.X == ssa.Value(f.Params[3]) && !val
+				return ok && sameParam(lk.X, paramByType(f, "map[string]bool", "map[string]struct{}")) && !val
 			})
-			good = mark != nil && prog.InstrDominates(mark, rec[0]) && notSeen && rec[0].Common().Args[3] == ssa.Value(f.Params[3])
+			good = mark != nil && prog.InstrDominates(mark, rec[0]) && notSeen && func() bool {
+				sp := paramByType(f, "map[string]bool", "map[string]struct{}")
+				for _, a := range rec[0].Common().Args {
+					if sameParam(a, sp) {
+						return true
+					}
+				}
+				return false
+			}()
 		}
 		out = append(out, verdict(good, rule, "depends_on :: service walk guarded by the seen set", c.P.Pos(f.Pos()),
 			"the recursive call is reachable only for a name not yet in `seen`, which is marked before recursing, and the same set is passed down",
